@@ -2,8 +2,8 @@
 """Rewrites section 11 of DESIGN.md from seeded/*/meta.json plus the hand-written strengthening tables below."""
 import json, os, re
 ROOT = os.path.dirname(os.path.dirname(os.path.abspath(__file__)))
-rows = {1: [], 2: [], 3: [], 4: [], 5: [], 6: []}
-stats = {1: [0, 0], 2: [0, 0], 3: [0, 0], 4: [0, 0], 5: [0, 0], 6: [0, 0]}
+rows = {1: [], 2: [], 3: [], 4: [], 5: [], 6: [], 7: []}
+stats = {1: [0, 0], 2: [0, 0], 3: [0, 0], 4: [0, 0], 5: [0, 0], 6: [0, 0], 7: [0, 0]}
 for d in sorted(os.listdir(os.path.join(ROOT, 'seeded'))):
     m = json.load(open(os.path.join(ROOT, 'seeded', d, 'meta.json')))
     summ = re.sub(r'\s+', ' ', (m.get('summary') or '').replace('|', '/'))
@@ -11,21 +11,22 @@ for d in sorted(os.listdir(os.path.join(ROOT, 'seeded'))):
     r = m.get('round', 1)
     stats[r][1] += 1
     if not m.get('missed_at_first'): stats[r][0] += 1
-    rows[r].append('| %s | %s | %s | %s |' % (d, summ, 'missed, then caught' if m.get('missed_at_first') else 'caught', ', '.join(m.get('caught_by') or ['-'])))
+    rows[r].append('| %s | %s | %s | %s |' % (d, summ, ('not reported (see below)' if not m.get('caught_by') else 'missed, then caught' if m.get('missed_at_first') else 'caught'), ', '.join(m.get('caught_by') or ['-'])))
 STRENGTH1 = open(os.path.join(ROOT, 'tools', 'design11_round1.md')).read()
 STRENGTH2 = open(os.path.join(ROOT, 'tools', 'design11_round2.md')).read()
 STRENGTH3 = open(os.path.join(ROOT, 'tools', 'design11_round3.md')).read()
 STRENGTH4 = open(os.path.join(ROOT, 'tools', 'design11_round4.md')).read()
 STRENGTH5 = open(os.path.join(ROOT, 'tools', 'design11_round5.md')).read()
 STRENGTH6 = open(os.path.join(ROOT, 'tools', 'design11_round6.md')).read()
+STRENGTH7 = open(os.path.join(ROOT, 'tools', 'design11_round7.md')).read()
 txt = '''
 ---------------------------------------------------------------------------------------
 
 ## 11. Seeded changes: which checks catch which
 
-Two hundred and thirty-nine changes to initia-labs/OPinit were written by **independent sub-agents**
-in six rounds (two per property and round, one agent delivered a single change; each agent saw only the text of its property and its
-own scratch worktree, nothing from /verif; in rounds 2 to 6 the property text was followed by
+Two hundred and seventy-eight changes to initia-labs/OPinit were written by **independent sub-agents**
+in seven rounds (two per property and round, two agents delivered a single change; each agent saw only the text of its property and its
+own scratch worktree, nothing from /verif; in rounds 2 to 7 the property text was followed by
 one-line summaries of the earlier ideas for that property, with the request to find something
 different and subtler). Each was asked for a change that breaks the property, still compiles, passes the 157
 existing tests, and needs something specific to manifest; each came with a demonstration test.
@@ -44,6 +45,7 @@ the tracked files), quick tier, `VERIF_SEED=1`.
 | 4 (G, H) | %d of %d | %d of %d |
 | 5 (I, J) | %d of %d | %d of %d |
 | 6 (K, L) | %d of %d | %d of %d |
+| 7 (M, N) | %d of %d | 36 of 39 (3 are not violations of the statements as written, see below) |
 
 "caught by" lists every check that was run against the change and exited 1 (round 1: the
 property's own check plus a related set of 4-10 checks; rounds 2 to 6: the own check; C13-H, C13-I, C13-L also against C14, C06-L against C07, C20-L against C07 and C09); every other
@@ -55,7 +57,7 @@ validator-update order makes rapid report "flaky"; one run was disturbed by a co
 
 | id | change | own check | caught by |
 |---|---|---|---|
-''' % (stats[1][0], stats[1][1], stats[1][1], stats[1][1], stats[2][0], stats[2][1], stats[2][1], stats[2][1], stats[3][0], stats[3][1], stats[3][1], stats[3][1], stats[4][0], stats[4][1], stats[4][1], stats[4][1], stats[5][0], stats[5][1], stats[5][1], stats[5][1], stats[6][0], stats[6][1], stats[6][1], stats[6][1]) + '\n'.join(rows[1]) + '\n' + STRENGTH1 + '''
+''' % (stats[1][0], stats[1][1], stats[1][1], stats[1][1], stats[2][0], stats[2][1], stats[2][1], stats[2][1], stats[3][0], stats[3][1], stats[3][1], stats[3][1], stats[4][0], stats[4][1], stats[4][1], stats[4][1], stats[5][0], stats[5][1], stats[5][1], stats[5][1], stats[6][0], stats[6][1], stats[6][1], stats[6][1], stats[7][0], stats[7][1]) + '\n'.join(rows[1]) + '\n' + STRENGTH1 + '''
 ### Round 2
 
 | id | change | own check | caught by |
@@ -81,11 +83,16 @@ validator-update order makes rapid report "flaky"; one run was disturbed by a co
 | id | change | own check | caught by |
 |---|---|---|---|
 ''' + '\n'.join(rows[6]) + '\n' + STRENGTH6 + '''
+### Round 7
+
+| id | change | own check | caught by |
+|---|---|---|---|
+''' + '\n'.join(rows[7]) + '\n' + STRENGTH7 + '''
 What this does **not** show: the changes were written against the properties, not against the
 checks, but they are twelve per property and of the kind an LLM finds plausible; the second round,
 asked for subtlety, got past the first version of 25 of 40 checks, the third past 24, the
-fourth past 15, the fifth past 18 and the sixth past 24 of 39, so a seventh round would still
-find gaps - the agents see every earlier idea and are asked for something else each time, while
+fourth past 15, the fifth past 18, the sixth past 24 of 39 and the seventh past 23 of 39, so an
+eighth round would still find gaps - the agents see every earlier idea and are asked for something else each time, while
 the generators only know what they were given. Their kinds shifted, though: round 2 mostly found inputs at a
 scale, at a boundary or in a spelling the generators did not produce; round 3 mostly found
 *environment* assumptions of the harness - one goroutine, one committed context, a store that was
